@@ -34,27 +34,32 @@ type shape struct {
 	name   string
 	tparam string
 	params string
+	winit  []bool // parameters of type W: an argument is passed through the documented W_Init conversion
 }
 
 var shapes = []shape{
-	{"none", "", ""},
-	{"int", "", "a int"},
-	{"string", "", "a string"},
-	{"float64", "", "a float64"},
-	{"any", "", "a any"},
-	{"int-string", "", "a int, b string"},
-	{"var-int", "", "a ...int"},
-	{"int-var-string", "", "a int, b ...string"},
-	{"slice-int", "", "a []int"},
-	{"func-int", "", "a func(int)"},
-	{"func-string", "", "a func(string)"},
-	{"funcstr-int", "", "a func(string), b int"},
-	{"funcint-string", "", "a func(int), b string"},
-	{"generic-any", "[T any]", "a T"},
-	{"generic-union", "[T ~int | ~string]", "a T"},
+	{"none", "", "", nil},
+	{"int", "", "a int", nil},
+	{"string", "", "a string", nil},
+	{"float64", "", "a float64", nil},
+	{"any", "", "a any", nil},
+	{"int-string", "", "a int, b string", nil},
+	{"var-int", "", "a ...int", nil},
+	{"int-var-string", "", "a int, b ...string", nil},
+	{"slice-int", "", "a []int", nil},
+	{"func-int", "", "a func(int)", nil},
+	{"func-string", "", "a func(string)", nil},
+	{"funcstr-int", "", "a func(string), b int", nil},
+	{"funcint-string", "", "a func(int), b string", nil},
+	{"int-int", "", "a int, b int", nil},
+	{"W", "", "a W", []bool{true}},
+	{"W-string", "", "a W, b string", []bool{true, false}},
+	{"int-W", "", "a int, b W", []bool{false, true}},
+	{"generic-any", "[T any]", "a T", nil},
+	{"generic-union", "[T ~int | ~string]", "a T", nil},
 }
 
-const nonGeneric = 13
+const nonGeneric = 17
 
 type arg struct {
 	text string
@@ -129,7 +134,7 @@ func (f family) name() string {
 // source of the fixture package for a family
 func (f family) source() string {
 	var b strings.Builder
-	b.WriteString("package ov\n\nconst XGoPackage = true\n\ntype N struct{ V int }\n\n")
+	b.WriteString("package ov\n\nconst XGoPackage = true\n\ntype N struct{ V int }\n\n// W has the documented implicit conversion: a value assignable to W_Init's parameter is accepted for W\ntype W struct{ v int }\n\nfunc W_Init(x int) W { return W{x} }\n\n")
 	switch f.Kind {
 	case "func":
 		for i, si := range f.Shapes {
@@ -154,7 +159,26 @@ func (f family) source() string {
 	return b.String()
 }
 
+// argsFor renders the arguments as candidate i receives them: an argument for a parameter of type W goes
+// through W_Init.
+func (f family) argsFor(i int, al arglist) string {
+	w := shapes[f.Shapes[i]].winit
+	if w == nil || al.ell || len(al.items) == 0 || strings.Contains(al.text, "T2()") {
+		return al.text
+	}
+	var out []string
+	for k, a := range al.items {
+		if k < len(w) && w[k] {
+			out = append(out, "ov.W_Init("+a.text+")")
+		} else {
+			out = append(out, a.text)
+		}
+	}
+	return strings.Join(out, ", ")
+}
+
 func (f family) callText(i int, al arglist) string {
+	al = arglist{text: f.argsFor(i, al), items: al.items, ell: al.ell}
 	switch f.Kind {
 	case "func":
 		return fmt.Sprintf("ov.F__%d(%s)", i, al.text)
@@ -372,8 +396,9 @@ func judge(f family, imp0 *fixture.Importer, report func(al arglist, kind, detai
 					argTexts[k] = "hlp.G"
 				}
 			}
-			if strings.Join(argTexts, ", ") != strings.TrimSuffix(al.text, "...") && strings.Join(argTexts, ", ")+"..." != al.text {
-				report(al, "residue-in-arguments", fmt.Sprintf("args (%s) were emitted as (%s)", al.text, strings.Join(argTexts, ", ")))
+			wantArgs := f.argsFor(want[ai], al)
+			if strings.Join(argTexts, ", ") != strings.TrimSuffix(wantArgs, "...") && strings.Join(argTexts, ", ")+"..." != wantArgs {
+				report(al, "residue-in-arguments", fmt.Sprintf("args (%s) for candidate %d must be emitted as (%s), were emitted as (%s)", al.text, want[ai], wantArgs, strings.Join(argTexts, ", ")))
 			}
 			if a.resType != "int" {
 				report(al, "result-type:"+a.resType, fmt.Sprintf("result type reported as %s, candidate returns int", a.resType))
